@@ -58,7 +58,11 @@ impl LocalStorage {
 
 impl Storage for LocalStorage {
     async fn put(&self, key: &str, bytes: &[u8]) -> Result<(), StorageError> {
+        #[cfg(folo_verif)]
+        crate::verif::point("put:start");
         let path = self.key_path(key)?;
+        #[cfg(folo_verif)]
+        crate::verif::point("put:mkdirs");
         if let Some(parent) = path.parent() {
             tokio::fs::create_dir_all(parent).await.map_err(|error| {
                 CreateLocalParentDirectoriesError::caused_by(parent.to_path_buf(), error)
@@ -71,6 +75,8 @@ impl Storage for LocalStorage {
         // or half-written file. Concurrent writers of the same key do not arise
         // in practice: object keys are partitioned by commit and discriminant,
         // and duplicate commits are rejected a layer above.
+        #[cfg(folo_verif)]
+        crate::verif::point("put:exists");
         match tokio::fs::try_exists(&path).await {
             Ok(true) => {
                 return Err(ObjectAlreadyExistsError::new(key.to_owned()).into());
@@ -90,7 +96,11 @@ impl Storage for LocalStorage {
     }
 
     async fn put_overwrite(&self, key: &str, bytes: &[u8]) -> Result<(), StorageError> {
+        #[cfg(folo_verif)]
+        crate::verif::point("put:start");
         let path = self.key_path(key)?;
+        #[cfg(folo_verif)]
+        crate::verif::point("put:mkdirs");
         if let Some(parent) = path.parent() {
             tokio::fs::create_dir_all(parent).await.map_err(|error| {
                 CreateLocalParentDirectoriesError::caused_by(parent.to_path_buf(), error)
@@ -107,6 +117,8 @@ impl Storage for LocalStorage {
 
     async fn get(&self, key: &str) -> Result<Vec<u8>, StorageError> {
         let path = self.key_path(key)?;
+        #[cfg(folo_verif)]
+        crate::verif::point("get:read");
         match tokio::fs::read(&path).await {
             Ok(bytes) => cbh_codec::decompress(&bytes)
                 .map_err(|error| DecompressLocalObjectError::caused_by(path, error).into()),
@@ -126,6 +138,8 @@ impl Storage for LocalStorage {
         let mut stack = vec![self.walk_root(prefix)];
 
         while let Some(dir) = stack.pop() {
+            #[cfg(folo_verif)]
+            crate::verif::point("list:dir");
             let mut entries = match tokio::fs::read_dir(&dir).await {
                 Ok(entries) => entries,
                 Err(error) if error.kind() == io::ErrorKind::NotFound => continue,
@@ -169,6 +183,8 @@ impl Storage for LocalStorage {
 
     async fn delete(&self, key: &str) -> Result<(), StorageError> {
         let path = self.key_path(key)?;
+        #[cfg(folo_verif)]
+        crate::verif::point("del:unlink");
         match tokio::fs::remove_file(&path).await {
             Ok(()) => Ok(()),
             Err(error) if error.kind() == io::ErrorKind::NotFound => {
@@ -242,8 +258,14 @@ async fn write_atomic(target: &Path, bytes: &[u8]) -> io::Result<()> {
     // Close the handle (end of the block) before the rename: Windows refuses to
     // rename a file that is still open.
     let written = async {
+        #[cfg(folo_verif)]
+        crate::verif::point("wa:create");
         let mut file = tokio::fs::File::create(&temp).await?;
+        #[cfg(folo_verif)]
+        crate::verif::point("wa:write");
         file.write_all(bytes).await?;
+        #[cfg(folo_verif)]
+        crate::verif::point("wa:flush");
         // Tokio's `File` does not flush its buffer on drop, so flush explicitly
         // to guarantee every byte is durable before the rename publishes it.
         file.flush().await
@@ -252,13 +274,21 @@ async fn write_atomic(target: &Path, bytes: &[u8]) -> io::Result<()> {
     if let Err(error) = written {
         // Best-effort: removing the orphaned temp file cannot recover the
         // original error we are about to return, so its own result is ignored.
+        #[cfg(folo_verif)]
+        crate::verif::point("wa:cleanup");
         let _cleanup = tokio::fs::remove_file(&temp).await;
         return Err(error);
     }
+    #[cfg(folo_verif)]
+    crate::verif::point("wa:rename");
     if let Err(error) = tokio::fs::rename(&temp, target).await {
+        #[cfg(folo_verif)]
+        crate::verif::point("wa:cleanup");
         let _cleanup = tokio::fs::remove_file(&temp).await;
         return Err(error);
     }
+    #[cfg(folo_verif)]
+    crate::verif::point("wa:done");
     Ok(())
 }
 
